@@ -1,4 +1,4 @@
-import TrionModel.Lemmas.SegRewrite
+import TrionModel.Lemmas.SegRun
 /-!
 # C13 — output regions never overlap or overflow silently
 
@@ -13,15 +13,15 @@ overlaid with the active buffer. `Inv s` = map invariant (C15) ∧ the active re
 entirely in the closed map or entirely in the active buffer. `Op.wf s op`: selected addresses are `u32`,
 alignments positive, and a rewrite only targets a statement that was placed.
 
-FULL-STRENGTH STATEMENTS (proved below under one extra guard, hence named `…_partial`):
-  theorem inv_step         : Inv s → Op.wf s op → Inv (step s op).1
-  theorem step_no_panic    : Inv s → Op.wf s op → (step s op).2 ≠ .panic
-  theorem rewrite_in_place : Inv s → (addr, d.length) ∈ s.pending → step s (.rewrite addr d) is `.ok`, changes
-                             `image` exactly on [addr, addr + d.length) and puts `d` there
-The guard is `Small s`: the active buffer holds fewer than 2^32 bytes. It is needed only for `rewrite`
-(`ActiveSegment::curr_addr` computes `buffer.len() as u32`, which wraps for a 4 GiB buffer in a region based
-at 0 with nothing above it); for all other operations the theorems hold without it
-(`inv_step_nonrewrite`, `step_no_panic_nonrewrite`).
+The step theorems `inv_step`, `step_no_panic`, `rewrite_in_place` hold for EVERY operation in EVERY state
+satisfying `Inv`, with one exception that is a FINDING about the code, not a proof gap: the state `Wrapped`
+(the active region is based at 0, nothing lies above it, and its buffer holds exactly 2^32 bytes). There
+`ActiveSegment::curr_addr` computes `buffer.len() as u32 = 0`, the rewrite of a placed statement misses the
+`write_at` branch, and `assert_eq!(n, 0)` after `output.put` fires (`curr_addr_wrap_finding`, with a reachable
+witness history `wrapped_reachable`). Under `Inv` the buffer never exceeds 2^32 bytes and reaches 2^32 only in
+`Wrapped` (`small_invariant`), so the guard is exactly "a rewrite is not issued in the `Wrapped` state".
+Whole histories (`Legal`, with rewrites licensed by the ghost list `pending`): `reachable_inv`,
+`history_no_panic`, `history_never_replaces`.
 -/
 namespace Trion.Seg
 open Trion.Map Trion.Dict
@@ -43,43 +43,76 @@ theorem step_no_panic_nonrewrite (s : State) (op : Op) (inv : Inv s) (wf : Op.wf
 /-- the active buffer holds fewer than 2^32 bytes -/
 def Small (s : State) : Prop := ∀ seg, s.active = some seg → seg.buf.length < 4294967296
 
+/-- C13 (`Small` is an invariant, up to one state): under `Inv` the active buffer ends inside the address
+space, hence holds at most 2^32 bytes; it holds exactly 2^32 only in the state `Wrapped` (base 0, completely
+filled 4 GiB buffer). -/
+theorem small_invariant (s : State) (inv : Inv s) :
+    (∀ seg, s.active = some seg → seg.base + seg.buf.length ≤ 4294967296) ∧ (¬ Wrapped s → Small s) ∧
+    (Wrapped s → ¬ Small s) :=
+  ⟨fun _ ha => buf_le_of_inv inv ha, small_of_inv inv,
+    fun ⟨seg, ha, _, hl⟩ sm => by have := sm seg ha; omega⟩
+
 /-- C13 (a value resolved later is written at the address its statement occupied): wherever the placed
 statement now lives — in the still active region, or in the closed map because other regions have been
 opened since, including a region that ends exactly where the statement begins — the rewrite succeeds,
-changes the image exactly on `[addr, addr + len)`, puts the resolved bytes there, keeps the invariant. -/
-theorem rewrite_in_place_partial (s : State) (addr : Nat) (d : List UInt8) (inv : Inv s) (sm : Small s)
+changes the image exactly on `[addr, addr + len)`, puts the resolved bytes there, keeps the invariant.
+Excluded: the `Wrapped` state (see `curr_addr_wrap_finding`). -/
+theorem rewrite_in_place (s : State) (addr : Nat) (d : List UInt8) (inv : Inv s) (nw : ¬ Wrapped s)
     (hp : (addr, d.length) ∈ s.pending) :
     (step s (.rewrite addr d)).2 = .ok ∧ Inv (step s (.rewrite addr d)).1 ∧
     (∀ k, ¬ (addr ≤ k ∧ k < addr + d.length) → image (step s (.rewrite addr d)).1 k = image s k) ∧
     (∀ i, i < d.length → image (step s (.rewrite addr d)).1 (addr + i) = d[i]?) :=
-  let h := rewrite_spec inv addr d hp sm
+  let h := rewrite_spec inv addr d hp (small_of_inv inv nw)
   ⟨h.1, h.2.1, h.2.2.1, h.2.2.2.1⟩
 
-/-- C13 (invariant), every operation. -/
-theorem inv_step_partial (s : State) (op : Op) (inv : Inv s) (sm : Small s) (wf : Op.wf s op) :
-    Inv (step s op).1 := by
-  cases op with
-  | rewrite a d => exact (rewrite_spec inv a d wf sm).2.1
-  | select a => exact inv_step_nonrewrite s _ inv wf (fun _ _ h => by cases h)
-  | append d => exact inv_step_nonrewrite s _ inv wf (fun _ _ h => by cases h)
-  | align n => exact inv_step_nonrewrite s _ inv wf (fun _ _ h => by cases h)
-  | place d => exact inv_step_nonrewrite s _ inv wf (fun _ _ h => by cases h)
-  | close => exact inv_step_nonrewrite s _ inv wf (fun _ _ h => by cases h)
+/-- C13 (invariant), every operation (a rewrite not in the `Wrapped` state). -/
+theorem inv_step (s : State) (op : Op) (inv : Inv s) (wf : Op.wf s op) (g : op.isRewrite → ¬ Wrapped s) :
+    Inv (step s op).1 :=
+  (legal_step inv op wf g).2
 
-/-- C13 (no panic), every operation: under the invariant, and with rewrites only of placed statements,
-no `assert!`/`assert_eq!`, `remaining()` underflow or map index panic can fire. -/
-theorem step_no_panic_partial (s : State) (op : Op) (inv : Inv s) (sm : Small s) (wf : Op.wf s op) :
-    (step s op).2 ≠ .panic := by
-  cases op with
-  | rewrite a d =>
-    have h := (rewrite_spec inv a d wf sm).1
-    show (rewrite s a d).2 ≠ .panic
-    rw [h]; simp
-  | select a => exact step_no_panic_nonrewrite s _ inv wf (fun _ _ h => by cases h)
-  | append d => exact step_no_panic_nonrewrite s _ inv wf (fun _ _ h => by cases h)
-  | align n => exact step_no_panic_nonrewrite s _ inv wf (fun _ _ h => by cases h)
-  | place d => exact step_no_panic_nonrewrite s _ inv wf (fun _ _ h => by cases h)
-  | close => exact step_no_panic_nonrewrite s _ inv wf (fun _ _ h => by cases h)
+/-- C13 (no panic), every operation: under the invariant, and with rewrites only of placed statements (not in
+the `Wrapped` state), no `assert!`/`assert_eq!`, `remaining()` underflow or map index panic can fire. -/
+theorem step_no_panic (s : State) (op : Op) (inv : Inv s) (wf : Op.wf s op) (g : op.isRewrite → ¬ Wrapped s) :
+    (step s op).2 ≠ .panic :=
+  (legal_step inv op wf g).1
+
+/-- FINDING (C13, `ActiveSegment::curr_addr` wraps for a 4 GiB buffer). In the state `Wrapped` — region based
+at 0 whose buffer holds exactly 2^32 bytes — `curr_addr()` is `0.saturating_add(2^32 as u32) = 0`, so the
+rewrite of ANY placed non-empty statement at an address above 0 fails the test `addr <= curr_addr()`, goes to
+`output.put`, which fills fresh addresses, and `assert_eq!(n, 0)` panics. -/
+theorem curr_addr_wrap_finding (s : State) (inv : Inv s) (seg : Active) (ha : s.active = some seg)
+    (hb : seg.base = 0) (hl : seg.buf.length = 4294967296) (addr : Nat) (d : List UInt8)
+    (hp : (addr, d.length) ∈ s.pending) (h0 : 0 < addr) (hd : d ≠ []) :
+    seg.cur = 0 ∧ (step s (.rewrite addr d)).2 = .panic :=
+  ⟨by unfold Active.cur; rw [hb, hl]; rfl, rewrite_wrapped_panics inv ha hb hl addr d hp h0 hd⟩
+
+/-- The `Wrapped` state is reachable by a legal history, and the panic of the finding with it: `.addr 0`, 2^32−2
+bytes of data, one two-byte statement (placed at 0xFFFFFFFE), then the rewrite of that statement. -/
+theorem wrapped_reachable (big : List UInt8) (hb : big.length = 4294967294) (x y x' y' : UInt8) :
+    let ops : List Op := [.select 0, .append big, .place [x, y]]
+    Legal init ops ∧ Wrapped (run init ops) ∧ (4294967294, 2) ∈ (run init ops).pending ∧
+    (step (run init ops) (.rewrite 4294967294 [x', y'])).2 = .panic := by
+  intro ops
+  have h1 : step init (.select 0) = (⟨[], some ⟨0, [], 4294967296⟩, []⟩, .ok) := by rfl
+  have h2 : step ⟨[], some ⟨0, [], 4294967296⟩, []⟩ (.append big) = (⟨[], some ⟨0, big, 4294967296⟩, []⟩, .ok) := by
+    simp [step, Active.write, Active.remaining, hb]
+  have h3 : step ⟨[], some ⟨0, big, 4294967296⟩, []⟩ (.place [x, y]) =
+      (⟨[], some ⟨0, big ++ [x, y], 4294967296⟩, [(4294967294, 2)]⟩, .placed 4294967294) := by
+    simp [step, Active.write, Active.remaining, Active.cur, hb, u32Max]
+  have hrun : run init ops = ⟨[], some ⟨0, big ++ [x, y], 4294967296⟩, [(4294967294, 2)]⟩ := by
+    simp only [ops, run, List.foldl, h1, h2, h3]
+  have hlegal : Legal init ops := by
+    refine ⟨by show (0 : Nat) ≤ u32Max; decide, fun h => h.elim, ?_⟩
+    rw [h1]
+    refine ⟨trivial, fun h => h.elim, ?_⟩
+    rw [h2]
+    exact ⟨trivial, fun h => h.elim, trivial⟩
+  have hinv := (run_inv ops init inv_init hlegal).1
+  refine ⟨hlegal, ?_, ?_, ?_⟩
+  · rw [hrun]; exact ⟨_, rfl, rfl, by simp [hb]⟩
+  · rw [hrun]; simp
+  · have hp : (4294967294, [x', y'].length) ∈ (run init ops).pending := by rw [hrun]; simp
+    exact rewrite_wrapped_panics hinv (by rw [hrun]) rfl (by simp [hb]) 4294967294 [x', y'] hp (by decide) (by simp)
 
 /-- C13 (bytes are never replaced): no operation other than the rewrite of a placed statement changes a
 byte already present in the image — whether the operation succeeds or is refused. -/
@@ -138,32 +171,86 @@ theorem overflow_is_diag (s : State) (seg : Active) (d : List UInt8) (inv : Inv 
   · omega
   · simp only [step, ha, f2, eta_active ha, and_self]
 
+/-- C13 (`.align n`, after /repo 9bfedb8): the padding is computed from the TRUE cursor `base + |buf|` (not the
+saturated `curr_addr`): nothing happens when it is a multiple of `n`; otherwise `n - cursor % n` bytes 0xBE are
+appended when they fit — and the new cursor is a multiple of `n` — and else the statement is the diagnostic
+`overflow` and the whole state is unchanged. -/
+theorem align_spec (s : State) (seg : Active) (n : Nat) (inv : Inv s) (ha : s.active = some seg) (hn : 0 < n) :
+    ((seg.base + seg.buf.length) % n = 0 → step s (.align n) = (s, .ok)) ∧
+    ((seg.base + seg.buf.length) % n ≠ 0 → n - (seg.base + seg.buf.length) % n ≤ seg.maxLen - seg.buf.length →
+      step s (.align n) = ({ s with active := some { seg with
+        buf := seg.buf ++ List.replicate (n - (seg.base + seg.buf.length) % n) 0xBE } }, .ok) ∧
+      (seg.base + (seg.buf ++ List.replicate (n - (seg.base + seg.buf.length) % n) 0xBE).length) % n = 0) ∧
+    ((seg.base + seg.buf.length) % n ≠ 0 → ¬ (n - (seg.base + seg.buf.length) % n ≤ seg.maxLen - seg.buf.length) →
+      step s (.align n) =
+        (s, .diag (.overflow (n - (seg.base + seg.buf.length) % n) (seg.maxLen - seg.buf.length)))) := by
+  have ok := inv.2.1 seg ha
+  have hr : seg.remaining = some (seg.maxLen - seg.buf.length) := by
+    unfold Active.remaining; rw [if_pos ok.1]
+  refine ⟨fun h0 => ?_, fun h0 h1 => ⟨?_, ?_⟩, fun h0 h1 => ?_⟩
+  · simp only [step, ha, h0, if_true]
+  · simp only [step, ha, h0, if_false, hr, h1, if_true]
+    rcases write_spec ok (List.replicate (n - (seg.base + seg.buf.length) % n) 0xBE) with ⟨_, f2⟩ | ⟨f1, _⟩
+    · rw [f2]
+    · simp only [List.length_replicate] at f1; have := ok.1; omega
+  · rw [List.length_append, List.length_replicate]
+    have h := Nat.div_add_mod (seg.base + seg.buf.length) n
+    have hlt := Nat.mod_lt (seg.base + seg.buf.length) hn
+    have e : seg.base + (seg.buf.length + (n - (seg.base + seg.buf.length) % n)) =
+        n * ((seg.base + seg.buf.length) / n + 1) := by
+      rw [Nat.mul_add, Nat.mul_one]; omega
+    rw [e, Nat.mul_mod_right]
+  · simp only [step, ha, h0, if_false, hr, h1]
+
 /-- the capacity of the active region really is the room up to the next occupied address / 2^32 -/
 theorem capacity_meaning (s : State) (seg : Active) (inv : Inv s) (ha : s.active = some seg) :
     seg.base + seg.maxLen ≤ 4294967296 ∧ ∀ k, seg.base ≤ k → k < seg.base + seg.maxLen → abs s.map k = none :=
   ⟨(inv.2.1 seg ha).2.1, (inv.2.1 seg ha).2.2.2⟩
 
-/-- every state reached from the initial one by operations other than `rewrite` satisfies the invariant -/
-theorem reachable_inv_partial (ops : List Op) (hops : ∀ op ∈ ops, (∀ a d, op ≠ .rewrite a d) ∧
-      (∀ a, op = .select a → a ≤ u32Max) ∧ (∀ n, op = .align n → 0 < n)) :
-    Inv (ops.foldl (fun s op => (step s op).1) init) := by
-  have gen : ∀ (ops : List Op) (s : State), Inv s → (∀ op ∈ ops, (∀ a d, op ≠ .rewrite a d) ∧
-      (∀ a, op = .select a → a ≤ u32Max) ∧ (∀ n, op = .align n → 0 < n)) →
-      Inv (ops.foldl (fun s op => (step s op).1) s) := by
-    intro ops
-    induction ops with
-    | nil => intro s inv _; exact inv
+/-- C13 (whole histories, WITH rewrites of placed statements). `Legal s ops`: every operation is well-formed
+in the state it is issued in — a rewrite must target an entry `(addr, len)` of the ghost list `pending`, i.e. a
+statement that an earlier `place` of this very history put at `addr` with `len` bytes — and no rewrite is issued
+in the `Wrapped` state. Every state reached from `init` by a legal history satisfies the invariant. -/
+theorem reachable_inv (ops : List Op) (lg : Legal init ops) : Inv (run init ops) :=
+  (run_inv ops init inv_init lg).1
+
+/-- C13 (no panic over whole histories): no operation of a legal history panics. -/
+theorem history_no_panic (ops : List Op) (lg : Legal init ops) : ∀ o ∈ outs init ops, o ≠ .panic :=
+  (run_inv ops init inv_init lg).2
+
+/-- C13 (bytes are never replaced, whole histories): along a legal history continued from any reachable state,
+a byte present in the image keeps its value until the end unless the history contains the rewrite of a placed
+statement covering its address. -/
+theorem history_never_replaces (pre ops : List Op) (lg : Legal init (pre ++ ops)) (k : Nat)
+    (hk : (image (run init pre) k).isSome = true)
+    (hno : ∀ a d, Op.rewrite a d ∈ ops → ¬ (a ≤ k ∧ k < a + d.length)) :
+    image (run init (pre ++ ops)) k = image (run init pre) k := by
+  have split : ∀ (pre : List Op) (s : State), Legal s (pre ++ ops) → Legal s pre ∧ Legal (run s pre) ops := by
+    intro pre
+    induction pre with
+    | nil => intro s h; exact ⟨trivial, h⟩
     | cons op r ih =>
-      intro s inv h
-      obtain ⟨h1, h2, h3⟩ := h op (List.mem_cons_self ..)
-      have wf : Op.wf s op := by
-        cases op with
-        | select a => exact h2 a rfl
-        | align n => exact h3 n rfl
-        | rewrite a d => exact absurd rfl (h1 a d)
-        | _ => trivial
-      exact ih _ (inv_step_nonrewrite s op inv wf h1) (fun o ho => h o (List.mem_cons_of_mem _ ho))
-  exact gen ops init inv_init hops
+      intro s h
+      obtain ⟨i1, i2⟩ := ih _ h.2.2
+      exact ⟨⟨h.1, h.2.1, i1⟩, i2⟩
+  obtain ⟨l1, l2⟩ := split pre init lg
+  have hrun : run init (pre ++ ops) = run (run init pre) ops := by simp [run, List.foldl_append]
+  rw [hrun]
+  exact run_keeps ops _ (run_inv pre init inv_init l1).1 l2 k hk hno
+
+/-- a legal history with a rewrite: place a two-byte statement, open another region, resolve the statement -/
+example : Legal init [.select 0x100, .place [0, 0xBE], .select 0x200, .rewrite 0x100 [1, 2]] ∧
+    outs init [.select 0x100, .place [0, 0xBE], .select 0x200, .rewrite 0x100 [1, 2]] =
+      [.ok, .placed 0x100, .ok, .ok] ∧
+    (run init [.select 0x100, .place [0, 0xBE], .select 0x200, .rewrite 0x100 [1, 2]]).map = [(0x100, [1, 2])] := by
+  refine ⟨⟨by show (0x100 : Nat) ≤ u32Max; decide, fun h => h.elim, trivial, fun h => h.elim,
+    by show (0x200 : Nat) ≤ u32Max; decide, fun h => h.elim, ?_, ?_, trivial⟩, by rfl, by rfl⟩
+  · show ((0x100 : Nat), 2) ∈ [((0x100 : Nat), 2)]
+    simp
+  · rintro _ ⟨seg, h, _, hl⟩
+    have h' : some (⟨0x200, [], 4294966784⟩ : Active) = some seg := h
+    cases h'
+    simp at hl
 
 -- non-vacuity: the F10 / F12 / F22 witnesses on the model (capacity 4 before 0x104; re-selecting a non-empty
 -- region; a region filled through 0xFFFFFFFF)
@@ -171,6 +258,10 @@ example : (step ⟨[(0x104, [1, 0, 0, 0])], some ⟨0x100, [0, 0xBF, 0, 0xBF], 4
     .diag (.overflow 2 0) := by rfl
 example : (step ⟨[], some ⟨0x100, [1], 4294967040⟩, []⟩ (.select 0x100)).2 = .diag (.occupied 0x100) := by rfl
 example : (step ⟨[], some ⟨0xFFFFFFFF, [1], 1⟩, []⟩ (.place [2])).2 = .diag (.overflow 1 0) := by rfl
+-- /repo 9bfedb8: after a region was filled through 0xFFFFFFFF the true cursor is 2^32: `.align 2` needs no padding,
+-- `.align 3` has no room
+example : step ⟨[], some ⟨0xFFFFFFFF, [1], 1⟩, []⟩ (.align 2) = (⟨[], some ⟨0xFFFFFFFF, [1], 1⟩, []⟩, .ok) := by rfl
+example : (step ⟨[], some ⟨0xFFFFFFFF, [1], 1⟩, []⟩ (.align 3)).2 = .diag (.overflow 2 0) := by rfl
 example : Inv ⟨[(0x104, [1, 0, 0, 0])], some ⟨0x100, [0, 0xBF], 4⟩, [(0x100, 2)]⟩ := by
   refine ⟨⟨by omega, by simp, by simp, trivial⟩, fun seg h => ?_, fun p hp => ?_⟩
   · simp only [Option.some.injEq] at h; subst h
